@@ -9,6 +9,18 @@ COMMON_ASSUME = [
 ]
 
 PROPS = {
+  'C17': {
+    'rule': 'C API stage: cases = (create_join_many / create_join_various, n from {0,1,2,3,odd,2^k-1,2^k,2^k+1,..300} or dense 0..40, one guarded byte arena holding args/results/ids/attrs/funcs as separate strided arrays (arg stride 0/1/8/24/40, larger-than-element strides, func stride 0 = shared slot) or as interleaved struct fields, each of results/ids/attrs NULL or not, per-item attributes with stack sizes and creation order; W in 1..8; schedule); non-trivial = n >= 2 AND (a leaf was stolen OR interleaved layout OR per-item attributes); '
+            'mtbb stage: task_group with 0..40 run() calls (beyond the 8-entry inline list) of closures of 4 size classes, nested groups, group reuse; parallel_for (first,last) / (first,last,step) / (first,last,step,grain) / range-based over int and long with empty, single-element and reversed ranges; non-trivial = more than 8 run() calls, or an empty / single-element range, or a stolen task; distinct = hash of (program, schedule, seed)',
+    'assumptions': COMMON_ASSUME + ['ids[] entries are required non-NULL but not distinct (a leaf record is recycled once joined)', 'the grain-size overload is exercised with Index=int only (it does not compile for long: literal 0 in the header)', 'task-creation bound 4n+16 for parallel_for over n indices turns non-termination into a decidable violation'],
+    'stages': [
+      {'kind': 'replays', 'name': 'replay', 'variant': 'v0'},
+      {'kind': 'pbt', 'name': 'bulk-c-api-v0', 'variant': 'v0', 'prop': 17, 'cases': (700, 12000), 'prog_max': 48, 'sched_max': 384},
+      {'kind': 'pbt', 'name': 'bulk-c-api-asan', 'variant': 'va', 'prop': 17, 'cases': (150, 4000), 'prog_max': 48, 'sched_max': 384},
+      {'kind': 'pbt', 'name': 'mtbb-v0', 'variant': 'v0', 'prop': 27, 'cases': (700, 12000), 'prog_max': 48, 'sched_max': 384},
+      {'kind': 'pbt', 'name': 'mtbb-v2', 'variant': 'v2', 'prop': 27, 'cases': (300, 8000), 'prog_max': 48, 'sched_max': 384},
+    ],
+  },
   'C10': {
     'rule': 'sequential stage: cases = (create n0 in {1,2,16,17,64,65,256,257,1000,1024} keys, delete by mode (none / all but last / all but a few high / random half / lower half) so that sparse trees with empty lower branches occur, optional exhaustion (1025th create), 1..4 threads with scripts of set/get on boundary-biased live keys, yields, key create/delete by threads (index reuse), out-of-range set/get; W in 1..8; schedule); non-trivial = a get was checked AND (a key >= 16 was used OR an index was reused after delete OR the thread migrated); '
             'concurrent stage: 2..4 threads held on distinct workers by a spin gate issue generated create/delete sequences; non-trivial = two allocator operations (create/delete) of different threads overlapped in time; distinct = hash of (program, schedule, seed)',
